@@ -89,9 +89,16 @@ func RunCtx(parent context.Context, s Solver, script string, timeout time.Durati
 	_ = cmd.Run()
 	secs := time.Since(t0).Seconds()
 	text := out.String()
-	first := strings.TrimSpace(text)
-	if i := strings.IndexByte(first, '\n'); i >= 0 {
-		first = strings.TrimSpace(first[:i])
+	// the answer is the first line that is not a solver warning (z3 prints "WARNING: ... cannot be used in patterns"
+	// lines before its answer; they are not errors)
+	first := ""
+	for _, l := range strings.Split(text, "\n") {
+		l = strings.TrimSpace(l)
+		if l == "" || strings.HasPrefix(l, "WARNING:") {
+			continue
+		}
+		first = l
+		break
 	}
 	ans := "error"
 	switch first {
